@@ -339,7 +339,8 @@ def check(ctx):
     if wf is None or rf is None:
         r2.bad(V(r2.id, "<anchor>", "missing:writer-or-reader", "cannot find save_to_tauri_config/from_tauri_config in the sources"))
     else:
-        for e in walk_block(wf.body):
+        from srclib import walk_block_deep
+        for e in walk_block_deep(S, wf):
             if e.get("k") == "macro" and e["name"] == "json" and "self" in e["tokens"]:
                 for m in re.finditer(r'"(\w+)"\s*:\s*self\s*\.\s*(\w+)', e["tokens"]):
                     writer[m.group(1)] = m.group(2)
@@ -369,9 +370,11 @@ def check(ctx):
                 r2.bad(V(r2.id, "GenerateConfig", "field-mismatch:%s" % k, 'key "%s" is written from field %s but read into field %s' % (k, writer[k], reader[k])))
         # section
         rsec = [lit_str(x["args"][0]) for x in walk_block(rf.body) if x.get("k") == "mcall" and x["method"] == "get" and x["args"] and lit_str(x["args"][0]) in ("plugins", "typegen")]
-        wsec = [lit_str(x["args"][0]) for x in walk_block(wf.body) if x.get("k") == "mcall" and x["method"] in ("get_mut", "insert", "contains_key") and x["args"]
-                and (lit_str(x["args"][0]) in ("plugins", "typegen") or expr_text(x["args"][0]) in ('"plugins".to_string()', '"typegen".to_string()'))]
-        if set(rsec) == {"plugins", "typegen"} and len(wsec) >= 2:
+        def sec_of(a_):
+            t_ = lit_str(a_) or re.sub(r'^"(\w+)"\.(to_string|to_owned|into)\(\)$', r"\1", expr_text(a_))
+            return t_ if t_ in ("plugins", "typegen") else None
+        wsec = [sec_of(x["args"][0]) for x in walk_block_deep(S, wf) if x.get("k") == "mcall" and x["method"] in ("get_mut", "insert", "contains_key", "entry", "get") and x["args"] and sec_of(x["args"][0])]
+        if set(rsec) == {"plugins", "typegen"} and set(wsec) == {"plugins", "typegen"}:
             r2.ok("both sides use the section plugins.typegen")
         else:
             r2.bad(V(r2.id, "GenerateConfig", "section", "reader sections %s / writer sections %s" % (rsec, wsec)))
